@@ -182,6 +182,10 @@ class CallMixin:
     def havoc_entry(self, st, entry, g, c, oldenv):
         e = entry.strip()
         if e == 'nothing': return
+        if e == 'anything':
+            for key in list(st.sorts):
+                st.havoc(key)
+            return
         root = e.split('.')[0].split('[')[0]
         if root in oldenv['vars']:
             for key, idx, srt in self.ev_lval(cparse.parse_expr(e), oldenv):
